@@ -5,10 +5,11 @@ import json, os, glob
 ROOT = os.path.dirname(os.path.dirname(os.path.abspath(__file__)))
 props = [json.loads(l)["id"] for l in open(os.path.join(ROOT, "properties.jsonl")) if l.strip()]
 na_reasons = json.load(open(os.path.join(ROOT, "manifest.d", "not_applicable.json")))
+integrated = set(json.load(open(os.path.join(ROOT, "manifest.d", "integrated.json"))))
 checks, na = [], []
 for pid in props:
     p = os.path.join(ROOT, "manifest.d", pid + ".json")
-    if not os.path.exists(p):
+    if not os.path.exists(p) or pid not in integrated:
         na.append({"property_id": pid, "reason": na_reasons.get(pid, "check not built yet (see DESIGN.md section 5 for the planned model and theorems)")})
         continue
     c = json.load(open(p))
